@@ -60,12 +60,12 @@ GROUPS = {
     "comp": dict(
         subst=dict(Bundles="B_Comp", InitOps="Init_Comp"),
         mc_quick=C(NSys=2, NEnt=2, NVal=2, OpNames={"ins", "set", "rm", "desp", "trig"}, MaxOps=2, Budget=3, MaxSteps=3,
-                   StepKinds={"ops", "poll"}),
+                   StepKinds={"ops", "poll"}, Features={"coarse"}),
         mc_thorough=C(NSys=2, NEnt=2, NVal=2, OpNames={"ins", "mut", "set", "smut", "sset", "rm", "desp", "trig", "noreact"}, MaxOps=2, Budget=4, MaxSteps=3,
                       StepKinds={"ops", "poll", "clear"}),
         gen=C(NSys=3, NEnt=2, NVal=2, OpNames={"ins", "mut", "set", "noreact", "smut", "sset", "sno", "rm", "xrm", "desp", "xdesp", "trig", "reg", "revoke", "run",
                                                "resset", "resmut", "resno", "res", "sysevsig"},
-              Modes=ALLMODES, MaxOps=3, Budget=9, MaxSteps=4, StepKinds={"ops", "poll", "clear", "gc", "frame", "direct"}),
+              Modes=ALLMODES, MaxOps=3, Budget=9, MaxSteps=4, StepKinds={"ops", "poll", "clear", "gc", "frame", "direct"}, Features={"coarse"}),
         rnd=dict(cfg=dict(kinds=["plain", "plain", "plain"], nonce=1, nent=2),
                  alphabet=["ins", "mut", "set", "noreact", "smut", "sset", "sno", "rm", "xrm", "desp", "xdesp", "trig", "reg", "revoke", "run", "resset", "resmut", "resno",
                            "res", "once", "probe", "sysevsig"],
